@@ -71,6 +71,19 @@ def generate(L):
     for n in need:
         if n not in fb:
             raise L.GenError(f"extract_tokens: expected fragment not found: {n!r}")
+    # between the inner scan and `let len`: nothing (a run longer than MAX is dropped), or the loop that cuts an
+    # over-long run into pieces of at most MAX that always leaves at least MIN for the rest
+    a = fb.index("is_secret_char(bytes[i]) { i += 1; }", fb.index("let start = i;")) + len("is_secret_char(bytes[i]) { i += 1; }")
+    between = fb[a:fb.index("let len = i - start;")].strip()
+    split_loop = ("let mut start = start; while i - start > MAX_SECRET_LENGTH { "
+                  "let piece = MAX_SECRET_LENGTH.min(i - start - MIN_SECRET_LENGTH); "
+                  "tokens.push((start, start + piece)); start += piece; }")
+    if between == "":
+        split_long = False
+    elif between == split_loop:
+        split_long = True
+    else:
+        raise L.GenError(f"extract_tokens: unrecognised code between the run scan and the length test: {between!r}")
 
     # ---- redact_secret
     f = L.find_fn(raw, "redact_secret", rel)
@@ -144,20 +157,38 @@ def generate(L):
     if not m:
         raise L.GenError("redact_secrets_from_prompts: match shape changed")
     redacted = re.findall(r"Message::(\w+)", m.group(1))
-    skipped = []
+    skipped, json_redacted = [], []
     tail = m.group(2)
     for am in re.finditer(r"((?:\|? ?Message::\w+ \{ \.\. \} ?)+)=> \{ \}", tail):
         skipped += re.findall(r"Message::(\w+)", am.group(1))
     leftover = re.sub(r"((?:\|? ?Message::\w+ \{ \.\. \} ?)+)=> \{ \},?", "", tail)
+    # a variant whose JSON `input` goes through redact_secrets_in_json
+    jm = re.fullmatch(r"Message::(\w+) \{ input, \.\. \} => \{ total_redactions \+= redact_secrets_in_json\(input\); \},?",
+                      _norm(leftover))
+    if jm:
+        json_redacted = [jm.group(1)]
+        leftover = ""
+        jf = _norm(L.find_fn(raw, "redact_secrets_in_json", rel))
+        want = ("fn redact_secrets_in_json(value: &mut serde_json::Value) -> usize { match value { "
+                "serde_json::Value::String(s) => { let (redacted, count) = redact_secrets_in_text(s); *s = redacted; count } "
+                "serde_json::Value::Array(items) => items.iter_mut().map(redact_secrets_in_json).sum(), "
+                "serde_json::Value::Object(map) => map.values_mut().map(redact_secrets_in_json).sum(), "
+                "_ => 0, } }")
+        if jf != want:
+            raise L.GenError(f"redact_secrets_in_json: unrecognised body {jf!r}")
     if _norm(leftover) != "":
         raise L.GenError(f"redact_secrets_from_prompts: unrecognised arm {_norm(leftover)!r}")
     names = [v for v, _ in variants]
-    if sorted(redacted + skipped) != sorted(names):
-        raise L.GenError(f"redact_secrets_from_prompts: arms {redacted}+{skipped} do not cover enum {names}")
+    if sorted(redacted + skipped + json_redacted) != sorted(names):
+        raise L.GenError(f"redact_secrets_from_prompts: arms {redacted}+{skipped}+{json_redacted} do not cover enum {names}")
     for v in redacted:
         fl = dict(dict(variants)[v])
         if fl.get("text") != "String":
             raise L.GenError(f"Message::{v}: redacted variant has no `text: String`")
+    for v in json_redacted:
+        fl = dict(dict(variants)[v])
+        if fl.get("input") != "serde_json::Value":
+            raise L.GenError(f"Message::{v}: json-redacted variant has no `input: serde_json::Value`")
 
     # ---- strip_prompt_messages
     f = L.find_fn(raw, "strip_prompt_messages", rel)
@@ -181,6 +212,11 @@ def generate(L):
         + ";\n   ".join("(" + _name(L, v) + ", " + fields_coq(fl) + ")" for v, fl in variants) + "].",
         "Definition redacted_variants : list (list N) := [" + "; ".join(_name(L, v) for v in redacted) + "].",
         "Definition skipped_variants : list (list N) := [" + "; ".join(_name(L, v) for v in skipped) + "].",
-        "(* readable copy: redacted = " + ", ".join(redacted) + "; skipped = " + ", ".join(skipped) + " *)",
+        "(* variants whose JSON input has every string leaf redacted (keys and shape untouched) *)",
+        "Definition json_redacted_variants : list (list N) := [" + "; ".join(_name(L, v) for v in json_redacted) + "].",
+        "(* readable copy: redacted = " + ", ".join(redacted) + "; skipped = " + ", ".join(skipped)
+        + "; json-redacted = " + ", ".join(json_redacted) + " *)",
+        "(* extract_tokens cuts a run longer than MAX into pieces of at most MAX, none shorter than MIN *)",
+        "Definition split_long_runs : bool := " + L.coq_bool(split_long) + ".",
     ]
     return "\n".join(out)
